@@ -67,8 +67,6 @@ def _check_path(path):
 
 def _norm_path(working_dir, path):
     path = fspath(path)
-    if os.path.isabs(path):
-        return path
     return os.path.abspath(os.path.join(working_dir, path))
 
 
